@@ -96,27 +96,75 @@ func checkKnap(items []item, W int, out string, line string) *core.Failure {
 		return fail("knapsack-overweight", "%q: selection %v weighs %d > limit %d", line, sel, tw, W)
 	}
 	best, bestMask := 0, 0
-	for mask := 0; mask < 1<<len(items); mask++ {
-		w, v := 0, 0
-		for i := range items {
-			if mask>>i&1 == 1 {
-				w += items[i].w
-				v += items[i].v
+	if len(items) > bruteMaxItems {
+		best = knapOptimumDP(items, W)
+	} else {
+		for mask := 0; mask < 1<<len(items); mask++ {
+			w, v := 0, 0
+			for i := range items {
+				if mask>>i&1 == 1 {
+					w += items[i].w
+					v += items[i].v
+				}
 			}
-		}
-		if w <= W && v > best {
-			best, bestMask = v, mask
+			if w <= W && v > best {
+				best, bestMask = v, mask
+			}
 		}
 	}
 	if tv != best {
-		return fail("knapsack-suboptimal", "%q: selection %v has value %d, but subset mask %b has value %d within the limit", line, sel, tv, bestMask, best)
+		return fail("knapsack-suboptimal", "%q: selection %v has value %d, but the optimum within the limit is %d (subset mask %b; 0 = found by the dynamic-programming oracle)", line, sel, tv, best, bestMask)
 	}
 	return nil
+}
+
+// bruteMaxItems: above this size the oracles are not brute force over 2^n subsets but an own
+// dynamic programme (optimum value) / reachable-total table (attainable totals).
+const bruteMaxItems = 16
+
+// knapOptimumDP: the optimum value of the 0-1 knapsack by the textbook two-dimensional table
+// opt[i][c] = best value using the first i items with capacity c (forward recurrence, no
+// in-place update, no item lists) — independent of the code under test and of the Lean model.
+func knapOptimumDP(items []item, W int) int {
+	prev := make([]int, W+1)
+	for _, x := range items {
+		cur := make([]int, W+1)
+		for c := 0; c <= W; c++ {
+			cur[c] = prev[c]
+			if x.w <= c && prev[c-x.w]+x.v > cur[c] {
+				cur[c] = prev[c-x.w] + x.v
+			}
+		}
+		prev = cur
+	}
+	return prev[W]
 }
 
 // attainable returns the set of subset totals of the values.
 func attainable(items []item) map[int]bool {
 	a := map[int]bool{}
+	if len(items) > bruteMaxItems {
+		// reachable-total table (values are positive here: checkSolv filters the domain)
+		total := 0
+		for _, x := range items {
+			total += x.v
+		}
+		reach := make([]bool, total+1)
+		reach[0] = true
+		for _, x := range items {
+			for t := total; t >= x.v; t-- {
+				if reach[t-x.v] {
+					reach[t] = true
+				}
+			}
+		}
+		for t, ok := range reach {
+			if ok {
+				a[t] = true
+			}
+		}
+		return a
+	}
 	for mask := 0; mask < 1<<len(items); mask++ {
 		t := 0
 		for i := range items {
@@ -328,6 +376,178 @@ func bruteMaximalCliques(a adj) []int {
 	return out
 }
 
+/* ---------- large graphs: no bit masks, no enumeration of vertex subsets ---------- */
+
+const bruteMaxVertices = 16
+
+// pivotMaximalCliques: an own Bron–Kerbosch with Tomita pivoting on copied sets (not the code
+// under test: that one has no pivot, shares arrays and walks P in place).
+func pivotMaximalCliques(a adj) [][]int {
+	n := len(a)
+	var out [][]int
+	filter := func(s []int, v int) []int {
+		var r []int
+		for _, u := range s {
+			if a[v][u] {
+				r = append(r, u)
+			}
+		}
+		return r
+	}
+	var rec func(R, P, X []int)
+	rec = func(R, P, X []int) {
+		if len(P) == 0 {
+			if len(X) == 0 {
+				c := append([]int{}, R...)
+				sort.Ints(c)
+				out = append(out, c)
+			}
+			return
+		}
+		// pivot: the vertex of P ∪ X with the most neighbours in P
+		pivot, bestCnt := -1, -1
+		for _, set := range [][]int{P, X} {
+			for _, u := range set {
+				cnt := 0
+				for _, w := range P {
+					if a[u][w] {
+						cnt++
+					}
+				}
+				if cnt > bestCnt {
+					pivot, bestCnt = u, cnt
+				}
+			}
+		}
+		P = append([]int{}, P...)
+		X = append([]int{}, X...)
+		var cand []int
+		for _, v := range P {
+			if !a[pivot][v] {
+				cand = append(cand, v)
+			}
+		}
+		for _, v := range cand {
+			rec(append(append([]int{}, R...), v), filter(P, v), filter(X, v))
+			for i, u := range P {
+				if u == v {
+					P = append(P[:i], P[i+1:]...)
+					break
+				}
+			}
+			X = append(X, v)
+		}
+	}
+	all := make([]int, n)
+	for i := range all {
+		all[i] = i
+	}
+	rec(nil, all, nil)
+	return out
+}
+
+// compareCliquesLarge: every reported list is duplicate-free, a clique, maximal (checked
+// directly on the adjacency matrix), reported once; and the number of reported cliques is the
+// number of maximal cliques found by the independent enumeration (so none is missing), each
+// of which is among the reported ones.
+func compareCliquesLarge(got [][]int, a adj, line string) *core.Failure {
+	n := len(a)
+	seen := map[string]bool{}
+	for _, c := range got {
+		in := make([]bool, n)
+		for _, v := range c {
+			if v < 0 || v >= n {
+				return fail("cliques-output", "%q: vertex %d out of range", line, v)
+			}
+			if in[v] {
+				return fail("cliques-repeated-vertex", "%q: clique %v repeats a vertex", line, c)
+			}
+			in[v] = true
+		}
+		for i, u := range c {
+			for _, w := range c[i+1:] {
+				if !a[u][w] {
+					return fail("cliques-not-maximal-clique", "%q: %v is reported but %d and %d are not adjacent", line, c, u, w)
+				}
+			}
+		}
+		for v := 0; v < n; v++ {
+			if in[v] {
+				continue
+			}
+			all := true
+			for _, u := range c {
+				if !a[v][u] {
+					all = false
+					break
+				}
+			}
+			if all {
+				return fail("cliques-not-maximal-clique", "%q: %v is reported but is not maximal: vertex %d is adjacent to all of it", line, c, v)
+			}
+		}
+		d := append([]int{}, c...)
+		sort.Ints(d)
+		k := fmt.Sprint(d)
+		if seen[k] {
+			return fail("cliques-duplicate", "%q: clique %v reported twice", line, d)
+		}
+		seen[k] = true
+	}
+	want := pivotMaximalCliques(a)
+	for _, w := range want {
+		if !seen[fmt.Sprint(w)] {
+			return fail("cliques-missing", "%q: maximal clique %v is not reported (%d reported, %d exist)", line, w, len(got), len(want))
+		}
+	}
+	if len(want) != len(got) {
+		return fail("cliques-missing", "%q: %d cliques reported, %d maximal cliques exist", line, len(got), len(want))
+	}
+	return nil
+}
+
+func checkLargeGraphOp(gc *graphCase, a adj, t []string, out, line string) *core.Failure {
+	switch t[0] {
+	case "cliques":
+		got, ok := parseCliques(out)
+		if !ok {
+			return fail("cliques-output", "%q: GetMaximalCliques answered %q", line, out)
+		}
+		if f := compareCliquesLarge(got, a, line); f != nil {
+			return f
+		}
+		if again := showCliques(canonCliques(gc.graph.GetMaximalCliques())); again != out {
+			return fail("cliques-order-dependent", "%q: two runs differ", line)
+		}
+	case "bk":
+		ps, _ := atoiAll(t[1:], gc.n)
+		i := strings.Index(out, " arr=")
+		if i < 0 {
+			return fail("cliques-output", "%q: BronKerbosch answered %q", line, out)
+		}
+		got, ok := parseCliques(out[:i])
+		if !ok {
+			return fail("cliques-output", "%q: BronKerbosch answered %q", line, out)
+		}
+		if out[i+5:] != fmt.Sprint(ps) {
+			return fail("cliques-top-array-modified", "%q: the array shared by P and X was changed: %s", line, out[i+5:])
+		}
+		// only a permutation of all vertices is the top-level call of the property
+		if len(ps) != gc.n {
+			return nil
+		}
+		in := make([]bool, gc.n)
+		for _, v := range ps {
+			if in[v] {
+				return nil
+			}
+			in[v] = true
+		}
+		return compareCliquesLarge(got, a, line)
+	}
+	return nil // bkx states are only checked on small graphs (the correspondence still compares them)
+}
+
 func maskOf(c []int) (int, bool) {
 	m := 0
 	for _, v := range c {
@@ -372,6 +592,9 @@ func checkGraphOp(gc *graphCase, t []string, out, line string) *core.Failure {
 		return nil // not an undirected graph: outside the domain
 	}
 	a := gc.adjacency()
+	if gc.n > bruteMaxVertices {
+		return checkLargeGraphOp(gc, a, t, out, line)
+	}
 	switch t[0] {
 	case "cliques":
 		got, ok := parseCliques(out)
@@ -587,6 +810,16 @@ func classify(c core.Case, out []string) []string {
 		switch t[0] {
 		case "knap":
 			ls = append(ls, "knap")
+			if sel, ok := parseIDs(o); ok {
+				switch {
+				case len(sel) >= 65:
+					ls = append(ls, "knap:selection≥65-items")
+				case len(sel) >= 33:
+					ls = append(ls, "knap:selection≥33-items")
+				case len(sel) >= 17:
+					ls = append(ls, "knap:selection≥17-items")
+				}
+			}
 			if t[2] != "nil" {
 				ls = append(ls, "knap:tie-breaker")
 			}
@@ -595,6 +828,9 @@ func classify(c core.Case, out []string) []string {
 			}
 		case "solv":
 			ls = append(ls, "solv:over="+t[2])
+			if len(hdr)-3 >= 34 {
+				ls = append(ls, "solv:≥17-items")
+			}
 			if t[3] != "nil" {
 				ls = append(ls, "solv:tie-breaker")
 			}
@@ -674,6 +910,12 @@ func classify(c core.Case, out []string) []string {
 			}
 			if gc.n == 0 {
 				ls = append(ls, "graph:empty")
+			}
+			switch {
+			case gc.n >= 65:
+				ls = append(ls, "graph:≥65-vertices")
+			case gc.n >= 33:
+				ls = append(ls, "graph:33..64-vertices")
 			}
 		}
 	}
